@@ -338,8 +338,30 @@ def check(ctx, impl, label, safe, api, j, result, before, after) -> None:
 
     # ---------------- C16: the API model is unchanged
     if prop == "C16" and before != after:
+        # what changed?  K16-alias-rename only renames declarations to the alias they are re-exported under
+        import json as _json
+        aliases = {q["alias"] for kv in j["reexport_map"] for m in kv["modules"] for q in m["qualified_imports"] if q["alias"]}
+        diffs = []
+
+        def walk(a, b, path):
+            if type(a) is not type(b):
+                diffs.append((path, a, b))
+            elif isinstance(a, dict):
+                for k in sorted(set(a) | set(b)):
+                    walk(a.get(k), b.get(k), path + (k,))
+            elif isinstance(a, list):
+                if len(a) != len(b):
+                    diffs.append((path, a, b))
+                else:
+                    for i, (x, y) in enumerate(zip(a, b)):
+                        walk(x, y, path + (i,))
+            elif a != b:
+                diffs.append((path, a, b))
+        walk(_json.loads(before), _json.loads(after), ())
+        only_renames = bool(diffs) and all(p and p[-1] == "name" and isinstance(new, str) and new in aliases for p, _, new in diffs)
         ctx.oracle_failure("C16", "API.to_dict() differs before/after stub generation",
-                           {**base, "aliased_reexport": any(q["alias"] for kv in j["reexport_map"] for m in kv["modules"] for q in m["qualified_imports"])})
+                           {**base, "aliased_reexport": only_renames,
+                            "changed": [{"path": "/".join(map(str, p)), "before": a, "after": b} for p, a, b in diffs[:5]]})
 
     # ---------------- parse every file (C02) ----------------
     parsed = {}
